@@ -483,3 +483,116 @@ func TestVerifC13Stress(t *testing.T) {
 	}
 	res.Stat("trace_events", tw.Events())
 }
+
+// TestVerifC13CloseSweep: "a close puts a closing frame on the wire numbered after every frame of the writes that
+// completed before it", over many closes. The closing frame's payload is a random amount of random filler, so whether
+// a close reaches the wire must not depend on that draw: thousands of streams are opened, written to (0..2 writes),
+// and closed on a healthy session, by the opener or by the acceptor; every Close must return nil and the decoded wire
+// must show, for that stream and direction, the data frames 0..k-1 and then exactly one closing frame numbered k.
+func TestVerifC13CloseSweep(t *testing.T) {
+	log.SetOutput(io.Discard)
+	log.SetLevel(log.PanicLevel)
+	res := kit.NewResult()
+	defer func() { res.Save(true) }()
+	rng := kit.NewRng(kit.Seed())
+	total := 3000
+	if kit.Thorough() {
+		total = 30000
+	}
+	methods := []byte{EncryptionMethodPlain, EncryptionMethodAES256GCM, EncryptionMethodChaha20Poly1305, EncryptionMethodAES128GCM}
+	per := 250
+	for r := 0; r*per < total; r++ {
+		p := c13NewPair(1+rng.Intn(3), methods[r%4], kit.Seed()*77+int64(r))
+		type plan struct {
+			sid      uint32
+			nwrites  int
+			byServer bool
+		}
+		var plans []plan
+		bad := false
+		for i := 0; i < per && !bad; i++ {
+			st, err := p.c.OpenStream()
+			if err != nil {
+				res.Note("round %d: OpenStream: %v", r, err)
+				break
+			}
+			pl := plan{sid: st.id, nwrites: 1 + rng.Intn(2), byServer: rng.Intn(3) == 0}
+			if !pl.byServer && rng.Intn(4) == 0 {
+				pl.nwrites = 0 // a stream closed before anything was written: the closing frame is number 0
+			}
+			for wn := 0; wn < pl.nwrites; wn++ {
+				if _, err := st.Write(c13Fill(1+rng.Intn(40), byte(1+wn))); err != nil {
+					res.Violate("close-sweep-write", fmt.Sprintf("Write on a fresh stream of a healthy session failed: %v", err), nil)
+					bad = true
+				}
+			}
+			closer, who := st, "c"
+			if pl.byServer {
+				// streams are queued in order of arrival; those the client already closed come out of Accept too
+				var acc *Stream
+				for acc == nil {
+					conn, err := p.s.Accept()
+					if err != nil {
+						res.Note("round %d: Accept: %v", r, err)
+						break
+					}
+					if conn.(*Stream).id == st.id {
+						acc = conn.(*Stream)
+					}
+				}
+				if acc == nil {
+					break
+				}
+				closer, who = acc, "s"
+			}
+			if err := closer.Close(); err != nil {
+				res.Violate("close-frame-missing", fmt.Sprintf("%s: Close of open stream %d on a healthy session failed: %v", who, st.id, err),
+					map[string]any{"round": r, "stream": st.id, "closer": who})
+				bad = true
+			}
+			plans = append(plans, pl)
+			res.Count(fmt.Sprintf("close-%s-%d", who, pl.nwrites), true)
+		}
+		time.Sleep(5 * time.Millisecond)
+		p.mu.Lock()
+		wire := append([]c13Wire(nil), p.wire...)
+		p.mu.Unlock()
+		for _, pl := range plans {
+			e, wantSeq := "c", uint64(pl.nwrites)
+			if pl.byServer {
+				e, wantSeq = "s", 0
+			}
+			var closing []uint64
+			data := 0
+			for _, f := range wire {
+				if f.E != e || f.Sid != pl.sid {
+					continue
+				}
+				if f.Closing == closingStream {
+					closing = append(closing, f.Seq)
+				} else {
+					data++
+				}
+			}
+			if len(closing) != 1 || closing[0] != wantSeq {
+				key := "close-frame-missing"
+				if len(closing) > 0 {
+					key = "close-not-last"
+				}
+				res.Violate(key, fmt.Sprintf("%s closed stream %d after %d completed writes on a healthy session: closing frames on the wire carry numbers %v, want exactly [%d] (%d data frames seen)",
+					e, pl.sid, pl.nwrites, closing, wantSeq, data), map[string]any{"round": r, "stream": pl.sid, "closer": e})
+			}
+		}
+		if k, what := c13CheckWire(wire, nil, nil); k != "" {
+			res.Violate(k, what, map[string]any{"round": r})
+		}
+		if p.bad != "" {
+			res.Violate("wire-undecodable", p.bad, nil)
+		}
+		res.Stat("closes", int64(len(plans)))
+		p.close()
+		if bad {
+			break
+		}
+	}
+}
